@@ -387,13 +387,15 @@ Proof.
     assert (S1 : same st0 st1) by (replace st1 with (fst (reschedule_delayed st0 m)) by (rewrite E; reflexivity);
                                    apply same_reschedule_delayed).
     destruct ok; simpl; [exact S1|]. eapply same_trans; [exact S1|sm]. }
-  destruct wt as [| |f o]; try apply P.
-  destruct (fut_done st f); [apply P|].
-  destruct (mk_shield st f) as [st1 o1] eqn:E.
-  assert (S1 : same st st1) by (replace st1 with (fst (mk_shield st f)) by (rewrite E; reflexivity); apply same_mk_shield).
+  set (stg := match v with Some (ECancel None) => set_g_owed st true | _ => st end).
+  assert (S0 : same st stg) by (unfold stg; destruct v as [[[m|]| |]|]; first [apply same_refl|sm]).
+  destruct wt as [| |f o]; try (eapply same_trans; [exact S0|apply P]).
+  destruct (fut_done stg f); [eapply same_trans; [exact S0|apply P]|].
+  destruct (mk_shield stg f) as [st1 o1] eqn:E.
+  assert (S1 : same stg st1) by (replace st1 with (fst (mk_shield stg f)) by (rewrite E; reflexivity); apply same_mk_shield).
   pose proof (same_yield_out outer (YFut o1) st1) as S2.
   destruct (yield_out outer (YFut o1) st1) as [[st2 k2] y2]. cbn [fst] in S2 |- *.
-  exact (same_trans _ _ _ S1 S2).
+  exact (same_trans _ _ _ S0 (same_trans _ _ _ S1 S2)).
 Qed.
 
 Lemma same_resume_in : forall k v st, same st (fst (fst (resume_in k v st))).
@@ -494,9 +496,20 @@ Lemma acct_wake : forall st wt v, acct st -> acct (wake st wt v).
 Proof.
   intros st wt v Ha. unfold wake. destruct wt as [id|id|id f h]; destruct v as [e|]; try exact Ha.
   - destruct e as [m| |]; try exact Ha.
-    pose proof (same_reschedule_delayed st m) as S1.
-    destruct (reschedule_delayed st m) as [st1 ok]. cbn [fst] in S1.
-    destruct ok; exact (same_acct _ _ S1 Ha).
+    set (stg := match m with None => set_g_owed st true | Some _ => st end).
+    assert (Hg : acct stg) by (unfold stg; destruct m; exact Ha).
+    pose proof (same_reschedule_delayed stg m) as S1.
+    destruct (reschedule_delayed stg m) as [st1 ok]. cbn [fst] in S1.
+    destruct ok; exact (same_acct _ _ S1 Hg).
+Qed.
+
+Lemma same_observe_resumption : forall st k v, same st (observe_resumption st k v).
+Proof.
+  intros. unfold observe_resumption.
+  destruct (existsb is_shield k); [destruct v; [sm|apply same_refl]|].
+  destruct k as [|[| | | | |[]] k']; try apply same_refl;
+    (destruct v; [sm|]; destruct (first_called st (sstack st));
+     [destruct (g_owed (set_g_late st true)); sm|destruct (g_owed st); [sm|apply same_refl]]).
 Qed.
 
 Lemma acct_task_step : forall st v, acct st -> acct (task_step st v).
@@ -511,9 +524,11 @@ Proof.
   destruct (resume_in (frames st1) v0 st1) as [[st2 k2] r2]. cbn [fst] in S2.
   assert (A2 : acct st2) by exact (same_acct _ _ S2 A1).
   destruct r2 as [v'|y|].
-  - destruct k2 as [|fr k']; [exact A2|]. destruct fr; try exact A2.
-    + destruct v'; exact A2.
-    + apply acct_wake. exact A2.
+  - assert (A3 : acct (observe_resumption (set_frames st2 k2) k2 v'))
+      by exact (same_acct _ _ (same_observe_resumption (set_frames st2 k2) k2 v') A2).
+    destruct k2 as [|fr k']; [exact A3|]. destruct fr; try exact A3.
+    + destruct v'; exact A3.
+    + apply acct_wake. exact A3.
   - exact (same_acct _ _ (same_task_yield (set_frames st2 k2) y) A2).
   - exact A2.
 Qed.
@@ -542,9 +557,10 @@ Proof.
   - rewrite Hl. exact (proj1 (good_task_uncancel_cancel st m Hl) Ha).
   - exact Ha.
   - rewrite Hl.
-    set (st1 := set_g_ext st (S (g_ext st))).
+    pose (st1 := emit (set_g_ext st (S (g_ext st))) (EvExt (time st))).
+    change (acct (task_cancel st1 None)).
     pose proof (eff_task_cancel st1 None Hl) as E. destruct E.
-    unfold acct in *. simpl in *. lia.
+    unfold acct in *. unfold st1 in *. simpl in *. lia.
 Qed.
 
 Lemma acct_begin_iter : forall st, acct st -> acct (begin_iter st).
@@ -587,12 +603,12 @@ Proof.
   eapply same_trans; [apply same_call_at|apply IH].
 Qed.
 
-Lemma acct_init : forall fx p timers turns k, acct (init fx p timers turns k).
+Lemma acct_init : forall fx fb p timers turns k, acct (init fx fb p timers turns k).
 Proof. intros. unfold init. eapply same_acct; [apply push_timers_same|]. reflexivity. Qed.
 
 (* for every program, every controller schedule (timers, injected handles, busy-loop compression) and every number of
    machine steps *)
-Theorem acct_reachable : forall fx p timers turns k fuel, acct (run_steps fuel (init fx p timers turns k)).
+Theorem acct_reachable : forall fx fb p timers turns k fuel, acct (run_steps fuel (init fx fb p timers turns k)).
 Proof. intros. apply acct_run_steps. apply acct_init. Qed.
 
 Lemma owed_sum_zero : forall l, (forall s, In s l -> s_host s = false) -> owed_sum l = 0.
@@ -602,12 +618,12 @@ Proof.
   unfold owed. rewrite (H a) by (left; reflexivity). reflexivity.
 Qed.
 
-Theorem no_leftover_when_balanced : forall fx p timers turns k fuel,
-  let st := run_steps fuel (init fx p timers turns k) in
+Theorem no_leftover_when_balanced : forall fx fb p timers turns k fuel,
+  let st := run_steps fuel (init fx fb p timers turns k) in
   (forall s, In s (scopes st) -> s_host s = false) ->
   t_cnt st = g_ext st + g_leak st + g_floor st.
 Proof.
-  intros. pose proof (acct_reachable fx p timers turns k fuel) as A. fold st in A. unfold acct in A.
+  intros. pose proof (acct_reachable fx fb p timers turns k fuel) as A. fold st in A. unfold acct in A.
   rewrite owed_sum_zero in A by assumption. lia.
 Qed.
 
